@@ -183,3 +183,135 @@ Proof.
   - unfold parse_base64. rewrite (filter_all _ _ N), b64_decode_encode. reflexivity.
   - unfold valid_xsd_base64. rewrite ws_collapse_id by exact N. unfold base64_re. apply m_opt_some. exact M.
 Qed.
+
+(* ================================================================ every accepted base64 literal is valid *)
+(* from_xsd removes ALL XSD blanks before decoding; the XSD grammar allows one blank after each character
+   of the collapsed text.  [pg t u]: u is t with at most one blank after every character but the last. *)
+Inductive pg : str -> str -> Prop :=
+| pg_last c : pg [c] [c]
+| pg_cons c t u : pg t u -> pg (c :: t) (c :: u)
+| pg_gap c t u : pg t u -> pg (c :: t) (c :: " "%char :: u).
+Inductive gapped : str -> str -> Prop :=
+| g_nil : gapped [] []
+| g_cons c t u : gapped t u -> gapped (c :: t) (c :: u)
+| g_gap c t u : gapped t u -> gapped (c :: t) (" "%char :: c :: u).
+Definition nows (c : ascii) : bool := negb (is_xsd_ws c).
+Lemma coll_gapped r : forall p, gapped (filter nows r) (coll true p r).
+Proof.
+  induction r as [|x r IH]; intros p; [constructor|]. cbn [filter coll].
+  replace (nows x) with (negb (is_xsd_ws x)) by reflexivity.
+  destruct (is_xsd_ws x); cbn [negb]; [apply IH|]. destruct p; cbn [app]; constructor; apply IH.
+Qed.
+Lemma gapped_pg t u : gapped t u -> forall c, pg (c :: t) (c :: u).
+Proof. induction 1; intros c0; [constructor|apply pg_cons, IHgapped|apply pg_gap, IHgapped]. Qed.
+Lemma collapse_pg s : filter nows s = [] \/ pg (filter nows s) (ws_collapse s).
+Proof.
+  unfold ws_collapse. induction s as [|x s IH]; [left; reflexivity|]. cbn [filter coll].
+  replace (nows x) with (negb (is_xsd_ws x)) by reflexivity.
+  destruct (is_xsd_ws x); cbn [negb]; [exact IH|]. right. cbn [app]. apply gapped_pg, coll_gapped.
+Qed.
+Lemma pg_inv2 c c' t u : pg (c :: c' :: t) u ->
+  exists g u', u = c :: g ++ u' /\ (g = [] \/ g = [" "%char]) /\ pg (c' :: t) u'.
+Proof. intros H. inversion H; subst; [exists [], u0|exists [" "%char], u0]; auto. Qed.
+Lemma pg_inv1 c u : pg [c] u -> u = [c].
+Proof. intros H. inversion H; subst; [reflexivity| |]; match goal with X : pg [] _ |- _ => inversion X end. Qed.
+
+Lemma char_sext_b64 c : match char_sext c with
+                        | Some (_, _, _, _, x1, x0) =>
+                          matches b64 [c] = true /\
+                          (x1 = false -> x0 = false -> matches (oneof "AEIMQUYcgkosw048") [c] = true)
+                        | None => True
+                        end.
+Proof. destruct c as [[] [] [] [] [] [] [] []]; vm_compute; auto; split; auto; intros; discriminate. Qed.
+Lemma char_sext_pad1 c : match char_sext c with
+                         | Some (_, _, false, false, false, false) => matches (oneof "AQgw") [c] = true
+                         | _ => True
+                         end.
+Proof. destruct c as [[] [] [] [] [] [] [] []]; vm_compute; auto. Qed.
+Lemma m_gap g : g = [] \/ g = [" "%char] -> matches sp g = true.
+Proof. intros [->| ->]; reflexivity. Qed.
+Lemma m_b64s_gap c g : matches b64 [c] = true -> g = [] \/ g = [" "%char] -> matches b64s (c :: g) = true.
+Proof. intros H Hg. unfold b64s. change (c :: g) with ([c] ++ g). apply m_cat; [exact H|apply m_gap, Hg]. Qed.
+Lemma list_ind4 {A} (P : list A -> Prop) :
+  P [] -> (forall a, P [a]) -> (forall a b, P [a; b]) -> (forall a b c, P [a; b; c]) ->
+  (forall a b c d r, P r -> P (a :: b :: c :: d :: r)) -> forall l, P l.
+Proof.
+  intros H0 H1 H2 H3 H4 l.
+  assert (K : P l /\ (forall a, P (a :: l)) /\ (forall a b, P (a :: b :: l)) /\ (forall a b c, P (a :: b :: c :: l))).
+  { induction l as [|x l (K0 & K1 & K2 & K3)]; [auto|]. repeat split; auto. }
+  apply K.
+Qed.
+
+Ltac reassoc new :=
+  match goal with |- matches _ ?old = true =>
+    replace old with new by (repeat (rewrite <- app_assoc; cbn [app]); rewrite ?app_nil_r; reflexivity) end.
+Lemma b64_gapped_valid : forall t b u, b64_decode t = Some b -> pg t u ->
+  matches (Cat (Star (rep 4 b64s)) b64_tail) u = true.
+Proof.
+  induction t as [| | | |c1 c2 c3 c4 r IH] using list_ind4; intros bb u D G; try discriminate.
+  - inversion G.
+  - cbn [b64_decode] in D.
+    destruct (pg_inv2 _ _ _ _ G) as (g1 & u1 & E1 & Hg1 & G1). destruct (pg_inv2 _ _ _ _ G1) as (g2 & u2 & E2 & Hg2 & G2).
+    destruct (pg_inv2 _ _ _ _ G2) as (g3 & u3 & E3 & Hg3 & G3). subst u u1 u2.
+    pose proof (char_sext_b64 c1) as B1. pose proof (char_sext_b64 c2) as B2. pose proof (char_sext_b64 c3) as B3.
+    pose proof (char_sext_b64 c4) as B4. pose proof (char_sext_pad1 c2) as P2.
+    destruct (is_eq c4) eqn:Q4.
+    + (* padded final group *)
+      apply ceq_eq in Q4. subst c4. destruct r as [|r0 r']; [|discriminate]. cbn [is_nil negb] in D.
+      apply pg_inv1 in G3. subst u3.
+      change (c1 :: g1 ++ c2 :: g2 ++ c3 :: g3 ++ ["="%char]) with ([] ++ c1 :: g1 ++ c2 :: g2 ++ c3 :: g3 ++ ["="%char]).
+      apply m_cat; [reflexivity|]. unfold b64_tail. cbn [alts]. apply m_altr.
+      destruct (is_eq c3) eqn:Q3.
+      * apply ceq_eq in Q3. subst c3. apply m_altr. cbn [cats].
+        destruct (char_sext c1) as [[[[[[a7 a6] a5] a4] a3] a2]|]; [|discriminate].
+        destruct (char_sext c2) as [[[[[[a1 a0] z3] z2] z1] z0]|]; [|discriminate].
+        destruct z3; [discriminate|]. destruct z2; [discriminate|]. destruct z1; [discriminate|]. destruct z0; [discriminate|].
+        change (c1 :: g1 ++ c2 :: g2 ++ "="%char :: g3 ++ ["="%char])
+          with ((c1 :: g1) ++ [c2] ++ g2 ++ ["="%char] ++ g3 ++ ["="%char]).
+        apply m_cat; [apply m_b64s_gap; [apply B1|exact Hg1]|]. apply m_cat; [exact P2|]. apply m_cat; [apply m_gap, Hg2|].
+        apply m_cat; [apply m_ch|]. apply m_cat; [apply m_gap, Hg3|apply m_ch].
+      * apply m_altl. cbn [cats rep].
+        destruct (char_sext c1) as [[[[[[a7 a6] a5] a4] a3] a2]|]; [|discriminate].
+        destruct (char_sext c2) as [[[[[[a1 a0] b7] b6] b5] b4]|]; [|discriminate].
+        destruct (char_sext c3) as [[[[[[b3 b2] b1] b0] z1] z0]|]; [|discriminate].
+        destruct z1; [discriminate|]. destruct z0; [discriminate|].
+        reassoc (((c1 :: g1) ++ (c2 :: g2) ++ []) ++ [c3] ++ g3 ++ ["="%char]).
+        apply m_cat; [apply m_cat; [apply m_b64s_gap; [apply B1|exact Hg1]|apply m_cat; [apply m_b64s_gap; [apply B2|exact Hg2]|reflexivity]]|].
+        apply m_cat; [apply (proj2 B3); reflexivity|]. apply m_cat; [apply m_gap, Hg3|apply m_ch].
+    + destruct (char_sext c1) as [[[[[[a7 a6] a5] a4] a3] a2]|]; [|discriminate].
+      destruct (char_sext c2) as [[[[[[a1 a0] b7] b6] b5] b4]|]; [|discriminate].
+      destruct (char_sext c3) as [[[[[[b3 b2] b1] b0] c7 ] c6]|]; [|discriminate].
+      destruct (char_sext c4) as [[[[[[c5 c4'] c3'] c2'] c1'] c0]|]; [|discriminate].
+      destruct (b64_decode r) as [tl|] eqn:Dr; [|discriminate].
+      destruct r as [|r0 r'].
+      * (* a full final group *)
+        apply pg_inv1 in G3. subst u3.
+        reassoc ([] ++ ((c1 :: g1) ++ (c2 :: g2) ++ (c3 :: g3) ++ []) ++ [c4]).
+        apply m_cat; [reflexivity|]. unfold b64_tail. cbn [alts]. apply m_altl. cbn [rep].
+        apply m_cat; [|apply B4].
+        apply m_cat; [apply m_b64s_gap; [apply B1|exact Hg1]|]. apply m_cat; [apply m_b64s_gap; [apply B2|exact Hg2]|].
+        apply m_cat; [apply m_b64s_gap; [apply B3|exact Hg3]|reflexivity].
+      * destruct (pg_inv2 _ _ _ _ G3) as (g4 & u4 & E4 & Hg4 & G4). subst u3.
+        reassoc (((c1 :: g1) ++ (c2 :: g2) ++ (c3 :: g3) ++ (c4 :: g4) ++ []) ++ u4).
+        apply m_starcat_prepend; [|apply (IH tl u4 eq_refl G4)]. cbn [rep].
+        apply m_cat; [apply m_b64s_gap; [apply B1|exact Hg1]|]. apply m_cat; [apply m_b64s_gap; [apply B2|exact Hg2]|].
+        apply m_cat; [apply m_b64s_gap; [apply B3|exact Hg3]|]. apply m_cat; [apply m_b64s_gap; [apply B4|exact Hg4]|reflexivity].
+Qed.
+Lemma base64_accept_valid s b : parse_base64 s = Ok b -> valid_xsd_base64 s = true.
+Proof.
+  unfold parse_base64. fold nows. destruct (b64_decode (filter nows s)) as [t|] eqn:D; [|discriminate]. intros _.
+  unfold valid_xsd_base64, base64_re. destruct (collapse_pg s) as [E|G].
+  - (* nothing but blanks: the empty literal *)
+    assert (K : ws_collapse s = []).
+    { unfold ws_collapse. clear D. induction s as [|x s IH]; [reflexivity|]. cbn [filter] in E.
+      replace (nows x) with (negb (is_xsd_ws x)) in E by reflexivity.
+      cbn [coll]. destruct (is_xsd_ws x); cbn [negb] in E; [apply IH, E|discriminate]. }
+    rewrite K. reflexivity.
+  - apply m_opt_some. eapply b64_gapped_valid; eassumption.
+Qed.
+Lemma base64_reject_literal s : valid_xsd_base64 s = false -> parse_base64 s = Err ValueError.
+Proof.
+  intros H. destruct (parse_base64 s) as [b|e] eqn:E.
+  - apply base64_accept_valid in E. congruence.
+  - unfold parse_base64 in E. destruct (b64_decode _); congruence.
+Qed.
